@@ -208,6 +208,7 @@ class Sim:
         self.tasks = []
         self.stop_reason = None
         self.harness_errors = []
+        self._fw_state = {}
 
     # ------------------------------------------------------------------ log
     def rec(self, kind, *args):
@@ -537,6 +538,28 @@ class Sim:
 
     def after_write(self, tr):
         pass
+
+    def frames_written(self, label):
+        """Frames written by endpoint `label`, judged on the byte *stream* of each connection (not per write(),
+        so a library that splits or coalesces writes is seen the same): [(evno, cid, fdict, frame, dropped)],
+        evno = the write that completed the frame.  Incremental: parses only writes not seen yet."""
+        from . import refframer
+
+        st = self._fw_state.setdefault(label, dict(n=0, buf={}, out=[]))
+        ws = self.writes.get(label, [])
+        for (ev, cid, data, dropped) in ws[st["n"]:]:
+            key = (cid, bool(dropped))
+            buf = st["buf"].get(key, b"") + data
+            frames, err, rest = refframer.split_stream(buf)
+            if err:
+                # not a concatenation of frames (C02's business): resynchronise leniently
+                frames = refframer.scan_frames(buf)
+                rest = b""
+            for fr in frames:
+                st["out"].append((ev, cid, refframer.fdict(fr), fr, dropped))
+            st["buf"][key] = rest
+        st["n"] = len(ws)
+        return st["out"]
 
     def on_transport_lost(self, tr, exc):
         self.rec("conn_lost", tr.label, tr.conn.cid, type(exc).__name__ if exc else None)
